@@ -1800,6 +1800,19 @@ func (r *pfRun) checkIndex(in ssa.Instruction, X, Index ssa.Value, st *pfState) 
 			return // constant index into an array: checked by the compiler
 		}
 		l := r.evalInt(Index, st)
+		// `for i := range arr` / `for _, v := range arr`: the induction variable is tested against a constant bound
+		if isRangeIndex(Index) && Index.Referrers() != nil {
+			for _, ref := range *Index.Referrers() {
+				bo, ok := ref.(*ssa.BinOp)
+				if !ok || bo.Op != token.LSS || bo.X != Index {
+					continue
+				}
+				if k, isK := an.IntConst(bo.Y); isK && k <= arr.Len() && len(bo.Block().Succs) == 2 && bo.Block().Succs[0].Dominates(in.Block()) {
+					e.site(r.fn, in, "index", e.key(X)+"["+l.String()+"]", true, "range index over an array of that length", r.ctx)
+					return
+				}
+			}
+		}
 		e.site(r.fn, in, "index", e.key(X)+"["+l.String()+"]", false, "variable index into an array", r.ctx)
 		return
 	}
